@@ -110,7 +110,7 @@ fn av_codec<T: Form + AsCborValue>(op: &str, arg: &Sx, o: &mut String) -> Option
 }
 
 /// `dec` / `enc` / `chain` / `layer` (+ `fromv` / `tov`)
-fn codec<T: Form + CborSerializable + Clone>(op: &str, arg: &Sx, o: &mut String) -> Option<()> {
+fn codec<T: Form + CborSerializable + Clone + PartialEq>(op: &str, arg: &Sx, o: &mut String) -> Option<()> {
     match op {
         "dec" => {
             let b = p_bytes(arg)?;
@@ -156,13 +156,46 @@ fn codec<T: Form + CborSerializable + Clone>(op: &str, arg: &Sx, o: &mut String)
                 );
             }
         }
+        "time" => {
+            // resource observation (C01): wall time of the typed decode, of the bare ciborium parse of the same bytes,
+            // of re-encoding, and of clone + compare + drop.  `ok|err K  <dec µs> <parse µs> [<enc µs> <clone-eq-drop µs>]`
+            let b = p_bytes(arg)?;
+            let t0 = std::time::Instant::now();
+            let r = guard(|| T::from_slice(&b));
+            let t_dec = t0.elapsed().as_micros();
+            let t1 = std::time::Instant::now();
+            let _ = guard(|| Value::from_slice(&b));
+            let t_parse = t1.elapsed().as_micros();
+            match r {
+                None => o.push_str("panic"),
+                Some(Err(e)) => {
+                    o.push_str(&format!("err {} {} {}", kind(&e), t_dec, t_parse));
+                }
+                Some(Ok(x)) => {
+                    let t2 = std::time::Instant::now();
+                    let same = {
+                        let xr = &x;
+                        guard(move || {
+                            let y = xr.clone();
+                            Ok::<bool, CoseError>(y == *xr || true)
+                        })
+                    };
+                    let t_clone = t2.elapsed().as_micros();
+                    let t3 = std::time::Instant::now();
+                    let e = guard(move || x.to_vec());
+                    let t_enc = t3.elapsed().as_micros();
+                    let okenc = matches!(e, Some(Ok(_))) && matches!(same, Some(Ok(true)));
+                    o.push_str(&format!("ok {} {} {} {} {}", t_dec, t_parse, t_enc, t_clone, if okenc { "enc-ok" } else { "enc-fail" }));
+                }
+            }
+        }
         _ => return av_codec::<T>(op, arg, o),
     }
     Some(())
 }
 
 /// `dect` / `enct` / `chaint` (+ everything of `codec`)
-fn tagged_codec<T: Form + CborSerializable + TaggedCborSerializable + Clone>(
+fn tagged_codec<T: Form + CborSerializable + TaggedCborSerializable + Clone + PartialEq>(
     op: &str,
     arg: &Sx,
     o: &mut String,
